@@ -93,7 +93,7 @@ func (c *contract) docVerdictRequest(ex *simnet.Exchange) (verdict error, route 
 		return err, nil, nil, r, false
 	}
 	in := &openapi3filter.RequestValidationInput{Request: r, PathParams: params, Route: route,
-		Options: &openapi3filter.Options{AuthenticationFunc: openapi3filter.NoopAuthenticationFunc, MultiError: false}}
+		Options: &openapi3filter.Options{AuthenticationFunc: openapi3filter.NoopAuthenticationFunc, MultiError: false, SkipSettingDefaults: true}}
 	verdict = openapi3filter.ValidateRequest(context.Background(), in)
 	r.Body = io.NopCloser(bytes.NewReader(body))
 	return verdict, route, params, r, true
